@@ -9,6 +9,11 @@ THEOREMS = [
     "C07_y_solves_normal_equations",
     "C07_x_solves_normal_equations",
     "C07_z_closed_form",
+    "C07_block_is_argmax_y",
+    "C07_block_is_argmax_x",
+    "C07_block_is_argmax_z",
+    "C07_enroll_monotone",
+    "C07_enroll_monotone_le",
     "C07_exec_eq_spec",
 ]
 CORR_OPS = ["fa_blocks:update_y", "fa_blocks:compute_latent_x", "fa_blocks:update_z", "fa_enroll:isv", "fa_enroll:jfa", "fa_enroll:logpost"]
